@@ -9,17 +9,21 @@ DEV = "Dev_ReloadOnSnapshotNoEffect"
 MC_CFG = """SPECIFICATION Spec
 CONSTANTS
   Certs = %(certs)s
-  Sharing = %(sharing)s
+  Sharing = "%(sharing)s"
+  SkipSet = %(skips)s
+  SuiteSet = %(suites)s
 INVARIANTS %(invs)s
 """
 
 GEN_CFG = """SPECIFICATION Spec
+CONSTANTS
+  Variants = %(variants)s
 """
 
 TRACE_CFG = """SPECIFICATION Spec
 CONSTANTS
   KnownDeviations = %(known)s
-  Sharing = %(sharing)s
+  Sharing = "%(sharing)s"
 """
 
 
@@ -28,27 +32,34 @@ def exhaustive(ctx):
     workers = int(os.environ.get("VF_TLC_WORKERS", "4"))
     # measured (4 workers, loaded machine): Certs {A,B}: 39 k states / 1.6 M transitions, 20 s; {A,B,C}: 116 k states / 5.1 M, 50 s
     certs = '{"A", "B"}' if ctx.quick() else '{"A", "B", "C"}'
+    # InsecureSkipVerify and the cipher-suite list have no effect in the model (that they have none in the code is what the
+    # vectors test); only the thorough tier spends exhaustive states on them
+    dims = dict(skips="{FALSE}", suites='{"default"}') if ctx.quick() else dict(skips="{TRUE, FALSE}", suites='{"default", "listed"}')
     base = "TypeOK Floor Mutual Highest"
-    # the code as it is: the policy function holds for all 250 configurations x 40 clients; rotation only after the repair
-    cfg = ctx.write_cfg("TLSPolicy", "MC_code.cfg", MC_CFG % dict(certs=certs, sharing="TRUE" if fixed else "FALSE",
+    # the code as it is: the policy function holds for all configurations x 40 clients; rotation only after the repair
+    cfg = ctx.write_cfg("TLSPolicy", "MC_code.cfg", MC_CFG % dict(dims, certs=certs, sharing="all" if fixed else "none",
                                                                  invs=base + (" Rotation" if fixed else "")))
     ctx.tlc_exhaustive("TLSPolicy", "TLSPolicy", cfg, workers=workers, timeout=900, deadlock=False, heap="3g")
     if not fixed and not ctx.quick():
-        cfg = ctx.write_cfg("TLSPolicy", "MC_ideal.cfg", MC_CFG % dict(certs=certs, sharing="TRUE", invs=base + " Rotation"))
+        cfg = ctx.write_cfg("TLSPolicy", "MC_ideal.cfg", MC_CFG % dict(dims, certs=certs, sharing="all", invs=base + " Rotation"))
         ctx.tlc_exhaustive("TLSPolicy", "TLSPolicy", cfg, workers=workers, timeout=900, deadlock=False, heap="3g")
     ctx.cov["exhaustive"] = True
-    # non-vacuity: with a private certificate holder per clone the documented rotation step is lost
-    cfg = ctx.write_cfg("TLSPolicy", "MC_nv.cfg", MC_CFG % dict(certs='{"A", "B"}', sharing="FALSE", invs="Rotation"))
-    r = ctx.tlc_exhaustive("TLSPolicy", "TLSPolicy", cfg, expect_ok=False, count=False, workers=2, timeout=300, deadlock=False, heap="2g")
-    if r["violated"] != "Rotation":
-        raise vflib.Broken("non-vacuity run: expected Rotation to be violated with Sharing=FALSE, got %s" % r["violated"])
-    ctx.notes.append("non-vacuity: with one certificate holder per TLSConfig clone (Sharing=FALSE, the pinned code) TLC finds Rotation violated "
-                     "(RotateOnDisk, ReloadSnapshot, Hello presents the old certificate)")
+    # non-vacuity: a certificate holder per clone ("none", the code before F21 was repaired) loses the documented rotation
+    # step; a holder shared only by clones made after the listener was built ("lazy") loses it for settings read back earlier
+    small = dict(skips="{FALSE}", suites='{"default"}')
+    for sharing in ("lazy",) if ctx.quick() else ("none", "lazy"):
+        cfg = ctx.write_cfg("TLSPolicy", "MC_nv_%s.cfg" % sharing, MC_CFG % dict(small, certs='{"A", "B"}', sharing=sharing, invs="Rotation"))
+        r = ctx.tlc_exhaustive("TLSPolicy", "TLSPolicy", cfg, expect_ok=False, count=False, workers=2, timeout=300, deadlock=False, heap="2g")
+        if r["violated"] != "Rotation":
+            raise vflib.Broken("non-vacuity run: expected Rotation to be violated with Sharing=%s, got %s" % (sharing, r["violated"]))
+    ctx.notes.append("non-vacuity: TLC finds Rotation violated when clones do not share the certificate holder, and when only clones made "
+                     "after the listener was built share it (RotateOnDisk, ReloadPreSnapshot, Hello presents the old certificate)")
 
 
 def generate(ctx):
     vp = os.path.join(ctx.scratch, "tls_vectors.ndjson")
-    cfg = ctx.write_cfg("TLSPolicy", "Gen.cfg", GEN_CFG)
+    variants = '{"plain", "skip", "listed"}' if ctx.quick() else '{"plain", "skip", "listed", "skip+listed"}'
+    cfg = ctx.write_cfg("TLSPolicy", "Gen.cfg", GEN_CFG % dict(variants=variants))
     r = ctx.tlc("TLSPolicy", "TLSGen", cfg, workers=1, timeout=300, env={"VF_VECTORS": vp}, heap="2g", deadlock=False)
     if not os.path.exists(vp) or os.path.getsize(vp) == 0:
         raise vflib.Broken("TLSGen wrote no vectors:\n" + r["out"][-3000:])
@@ -64,7 +75,7 @@ def generate(ctx):
 def validate(ctx, trace, label):
     fixed = ctx.finding_status("F21") == "fixed"
     cfg = ctx.write_cfg("TLSPolicy", "Trace_%s.cfg" % label, TRACE_CFG % dict(
-        known=ctx.tla_set(ctx.known_devs(["C30"])), sharing="TRUE" if fixed else "FALSE"))
+        known=ctx.tla_set(ctx.known_devs(["C30"])), sharing="all" if fixed else "none"))
     return ctx.tlc_trace("TLSPolicy", "TLSTrace", cfg, trace, out_name="res_%s.json" % label, heap="4g")
 
 
@@ -122,8 +133,10 @@ def run(ctx):
     exhaustive(ctx)
     vectors = generate(ctx)
     binp = ctx.build_harness(HARNESS)
-    # every configuration and every client (10 000 vectors; the ~3 200 against accepted configurations are real handshakes, a few seconds)
-    ctx.harness_ok(binp, "TestVF_TLS", {"VF_TLS_VECTORS": vectors, "VF_TLS_EVERY": 1}, timeout=540)
+    # every configuration (quick 750, thorough 1000: Min/Max x ClientAuth x CA x InsecureSkipVerify x cipher-suite list); quick: a
+    # seeded pseudo-random half of the 40 clients for the plain ones and a quarter for those with InsecureSkipVerify or a
+    # cipher-suite list (about 4000 real handshakes); thorough: every client (12 800 handshakes)
+    ctx.harness_ok(binp, "TestVF_TLS", {"VF_TLS_VECTORS": vectors, "VF_TLS_EVERY": 4 if ctx.quick() else 1, "VF_TLS_EVERY_PLAIN": 2 if ctx.quick() else 1}, timeout=540)
     trace = os.path.join(ctx.scratch, "tls.ndjson")
     summ = json.load(open(os.path.join(ctx.scratch, "tls.summary.json")))
     res = validate(ctx, trace, "main")
@@ -132,7 +145,7 @@ def run(ctx):
     if summ["handshakes"] == 0 or summ["completed"] == 0:
         raise vflib.Broken("no TLS handshake completed at all: the harness could not drive the listener")
     lines = open(trace).read().splitlines()
-    ctx.cov["traces_validated_against_impl"] = summ["configs"] + 3
+    ctx.cov["traces_validated_against_impl"] = summ["configs"] + 6
     ctx.cov["evaluations"] = res["n"]
     ctx.cov["distinct_nontrivial"] = summ["nontrivial"]
     ctx.cov["trace_stats"] = res["stats"]
@@ -156,13 +169,15 @@ def run(ctx):
         ctx.notes.append("impl-level drift: Listen / handshake outcomes differ from Accepts / Handshake as transcribed; the exhaustive result "
                          "no longer speaks about this code (not a verdict)")
     bind_mutation(ctx, lines)
-    ctx.cov["rule"] = ("TLC-generated vectors: 250 configurations x 40 clients (10 version ranges x 4 certificate kinds), every configuration started "
-                       "as a real TLS listener, real crypto/tls handshakes + NULL call; 3 rotation histories; non-trivial = a configuration with "
+    ctx.cov["rule"] = ("TLC-generated vectors: 1000 configurations (Min/Max x ClientAuth x CA file x InsecureSkipVerify x cipher-suite list) x 40 "
+                       "clients (10 version ranges x 4 certificate kinds; certificates are sent whatever CAs the server names), every configuration "
+                       "started as a real TLS listener, real crypto/tls handshakes + NULL call; 6 rotation histories (settings fetched after Listen, "
+                       "fetched once and kept, fetched before Listen, written back with UpdateExportOptions); non-trivial = a configuration with "
                        "both completed and refused handshakes")
-    ctx.cov["spec_actions_covered_by_impl"] = ["Start(accepted)", "Start(refused)", "Hello", "RotateOnDisk", "ReloadSnapshot", "ReloadCaller"]
+    ctx.cov["spec_actions_covered_by_impl"] = ["Start(accepted)", "Start(refused)", "Hello", "RotateOnDisk", "ReloadSnapshot", "ReloadPreSnapshot", "ReloadCaller"]
     ctx.assumptions += ["crypto/tls and crypto/x509 are trusted; the spec decides the policy around them",
                         "a handshake counts as completed when the server answered a NULL call on the session",
-                        "cipher-suite lists are left at the library defaults; client certificates are ECDSA P-256",
+                        "cipher suites: library default or the list of DefaultTLSConfig(); client and server certificates are ECDSA P-256",
                         "with no CAFile the verifying modes fall back to the system roots, to which no test certificate chains"]
 
 
